@@ -320,6 +320,11 @@ def history(ctx, r, n_steps, base="empty", fresh_cache=None, script=None):
         q = scripted[1] if scripted is not None else (r.choice(asked) if asked and r.random() < 0.35 else gen_query(r))
         asked.append(q)
         hist.append(["query"] + list(q))
+        # another database of the same process, filled differently (the same names mean other things there), is asked the
+        # same question first: what one database learnt is nothing another database may answer with
+        if base == "empty" and (step % 3 == 0 or scripted is not None):
+            with table.pushed(BYSTANDER()):
+                run_query(BYSTANDER(), q)
         with table.pushed(warm):
             before = full_snapshot(warm) if base == "empty" else snapshot.registry(warm, sample_conversions=False)
             ow = run_query(warm, q)
@@ -358,6 +363,26 @@ def history(ctx, r, n_steps, base="empty", fresh_cache=None, script=None):
 
 
 KIND_OK, KIND_ODD = {}, {}
+_BY = []
+
+
+def BYSTANDER():
+    """a second database alive in the process: the names of the pools registered with other meanings"""
+    from barril.units import UnitDatabase
+
+    if not _BY:
+        d = UnitDatabase()
+        d.AddUnitBase("time", "second", "s")
+        d.AddUnit("time", "kilo-something", "km", "%f/7.0", "%f*7.0")  # 'km' is a time unit here
+        d.AddUnit("time", "m as minutes", "m", "%f/60.0", "%f*60.0")
+        d.AddUnitBase("length", "centimetre as base", "cm")
+        d.AddUnit("length", "minute as a length", "min", "%f*3.0", "%f/3.0")
+        d.AddUnitBase("volume", "litre as base", "L")
+        d.AddUnit("volume", "m3", "m3", "%f/1000.0", "%f*1000.0")
+        for c, q in (("length", "time"), ("depth", "time"), ("time", "length"), ("span", "volume"), ("volume", "volume"), ("tank", "length"), ("bore", "time")):
+            d.AddCategory(c, q)
+        _BY.append(d)
+    return _BY[0]
 
 
 def override_scripts():
